@@ -31,6 +31,10 @@ UNITS = [
                  ("a-message-only-when-some-pair-is-out-of-order",
                   "implies(result is not None, exists(0, len(ranges) - 1, lambda j: not (" + BEFORE.format(j="j")
                   + ")))"),
+                 # what a matcher that searches the ranges may rely on (follows with first <= last of every Range)
+                 ("none-only-when-firsts-and-lasts-strictly-increase",
+                  "implies(result is None, forall(0, len(ranges) - 1, lambda j: "
+                  "ord(ranges[j].first) < ord(ranges[j + 1].first) and ord(ranges[j].last) < ord(ranges[j + 1].last)))"),
                  ("a-message-is-never-empty", "result is None or len(result) > 0")],
              twins=[("never-none", "result is not None"), ("always-none", "result is None")],
              use_as_callee=False, replay="native.c18ranges:replay_check_ranges"),
